@@ -50,8 +50,28 @@ void h_run(Ctx &c)
 	long maxops = c.param("maxops", 150);
 	long nops = t.enumerating ? c.param("ops", 6) : t.range(0, maxops);
 	long precycle = c.param("precycle", t.enumerating ? 0 : -1);
-	if (precycle < 0)
+	if (precycle < 0 && !c.feat(2))
 		precycle = t.choose(2) ? t.choose(2 * depth + 1) : 0;
+	if (precycle < 0) {
+		// long lives: index arithmetic that is only right for the first 2^8 or 2^16 messages (or only for
+		// depths dividing them) shows after that many claims
+		switch (t.weighted({ 16, 16, 4, 1 })) {
+		case 0:
+			precycle = 0;
+			break;
+		case 1:
+			precycle = t.choose(2 * depth + 1);
+			break;
+		case 2:
+			precycle = 200 + t.choose(400);
+			c.cls("long-life (>= 256 messages before the generated operations)");
+			break;
+		case 3:
+			precycle = 65400 + t.choose(300);
+			c.cls("long-life (>= 65536 messages before the generated operations)");
+			break;
+		}
+	}
 	c.note("depth %u msg_len %u slack %u, %ld ops after %ld pre-cycled messages", depth, msg_len, slack, nops, precycle);
 	unsigned long claimed = 0, received = 0, released = 0;
 	std::vector<bool> sent; // indexed by claim number
